@@ -235,6 +235,23 @@ def run(R):
                     z = [0] * (8 * n)
                     z[pos] = 0x80 if pos % 8 == 7 else 1
                     add((fn, f), {"fn": fn, "f": f, "a": z})
+    # zero tests on limb vectors whose limbs cancel under xor / sum to zero modulo 2^64 (an accumulator combined with ^ or + instead of |)
+    le8v = lambda ws: [b for w in ws for b in w.to_bytes(8, "little")]
+    x, y = R.rng.getrandbits(64) | 1, R.rng.getrandbits(64) | 2
+    for ws in ([x, x], [x, 0, x], [x, y, x ^ y], [1, (1 << 64) - 1], [x, (-x) % (1 << 64)], [0, x, x, 0, 0], [x, y, x, y]):
+        for f in ("ct_zero", "ct_nonzero"):
+            for fn in ("arr64", "sl64"):
+                add((fn, f, "cancel"), {"fn": fn, "f": f, "a": le8v(ws)})
+    # codes longer than any MAC of the crate (MacResult accepts caller-supplied codes): a difference beyond byte 64, and a proper prefix
+    for n in (65, 100, 200):
+        base = vlib.prng_bytes(R.seed, "c18/longmac/%d" % n, n)
+        for pos in (64, n - 1):
+            o = list(base); o[pos] ^= 1
+            for f in ("eq", "ne"):
+                add(("mac", f, "long"), {"fn": "mac", "f": f, "a": base, "b": o})
+        for f in ("eq", "ne"):
+            add(("mac", f, "long"), {"fn": "mac", "f": f, "a": base, "b": list(base)})
+            add(("mac", f, "long"), {"fn": "mac", "f": f, "a": base, "b": base[:64]})
     # ---- Choice algebra, CtOption
     for a in (0, 1):
         for f in ("negate", "is_true", "is_false", "into_bool"):
